@@ -451,6 +451,7 @@ func (i *interpreter) startPath(w workItem) {
 	i.symNames = map[string]int{}
 	i.inputs = nil
 	i.trace = nil
+	i.numCPU = 0
 	i.summ = nil
 	i.pathReach = map[string]int{}
 	i.builders = nil
